@@ -517,6 +517,10 @@ def stepDriver (d : DSt) (op implObs : String) : DSt × String × List String :=
       let viol := afErrs ++ oracles s st2 impl d.implDials ++ finalOracle st2 op impl ++ c17hs ++ errs.map (fun e => "C09 picker-choice-inadmissible " ++ e.replace " " "_")
         ++ errs.map (fun e => "C10 download-progress-diverged " ++ e.replace " " "_")
         ++ errsI.map (fun e => "C13 metadata-download-inadmissible " ++ e.replace " " "_")
+        -- C08: the buffer of a metadata download is allocated from the size the peer announced; a download from a
+        -- peer whose announcement exceeds the configured maximum is an allocation beyond it
+        ++ (st2.idls.filter fun dl => dl.size > st2.maxMeta).map (fun dl =>
+              s!"C08 metadata-buffer-beyond-the-configured-maximum peer={dl.k} size={dl.size} max={st2.maxMeta}")
       let implDials := (((impl.find? fun (k, _) => k = "dials").bind fun (_, x) => x.toNat?)).getD d.implDials
       let looseDials := d.looseDials || toks.headD "" = "dialhold"
       let st2 := if looseDials then { st2 with dials := implDials } else st2
